@@ -5,7 +5,7 @@ import json, glob
 TXT = {
  "C01": ("every Diff variant has an undo arm reading all old_* and no new_* payload, reversed replay; every UserModel op whose write effects reach persistent state records a diff on every normal path; numeric Diff fields have the provenance of the arguments given to the Model mutator; replay arms pass the recorded field (or an inverse built from recorded fields only) for every like-named parameter", "equality of restored values"),
  "C02": ("redo arm per variant reads new_* only; undo/redo arms agree on sheet, cell and evaluation request; stack transitions; who may write the stacks; replay records nothing; replay arguments are the recorded fields; recorded text that replay re-parses is language-independent (8 known findings)", "values after redo"),
- "C03": ("tags and dispatch of the replication queue, its writers, append-only outside flush; replay arguments and recorded text as for C02 (the display language is per-user state: same 8 known findings)", "replica value equality"),
+ "C03": ("tags and dispatch of the replication queue, its writers, append-only outside flush; replay arguments and recorded text as for C02 (the display language is per-user state: same 8 known findings); every table an operation writes can be written by the replay arms of the variants it records (2 known findings: CF dxfs)", "replica value equality"),
  "C04": ("no error exit after the history push; in the six structural operations and in every editing entry point of Model/Worksheet/Styles that a UserModel operation calls, no explicit Err is constructed after the first persistent write (writes placed at the store or mutator call, not at a `let x = &mut ..`)", "partial edits inside loops of fallible mutators"),
  "C05": ("Evaluating/Evaluated marks (one mark dominated by the state test, every return passes an Evaluated mark, no demand evaluation after it, #CIRC! producers); whole-row/column ranges are clipped by the extent of the range's own sheet in all 41 function implementations that clip", "values"),
  "C06": ("operator -> float operation dispatch, the 25-cell cross-kind comparison table, left error wins in every binary handler, truthiness is exact comparison with 0", "coercions, function results"),
